@@ -1,7 +1,13 @@
-/* Harness for C20 (key material is wiped).  Built -O2 WITHOUT sanitizers: what is observed is the
- * memory content at the moment a block is handed to free(), and context objects after *_Final.
- * malloc/free of the library code are wrapped at link time; OpenSSL's allocator is replaced
- * through CRYPTO_set_mem_functions so that BIGNUM limbs can be inspected when released. */
+/* Harness for C20 (key material is wiped).  What is observed is the memory content at the moment a block
+ * goes back to the allocator, and context objects after *_Final.  Two builds of this file are run:
+ *  - `-O2` WITHOUT sanitizers (does the compiler keep the zeroing?): malloc/free/strdup of the library code are
+ *    wrapped at link time; OpenSSL's allocator is replaced through CRYPTO_set_mem_functions so that BIGNUM limbs
+ *    can be inspected when released;
+ *  - with AddressSanitizer: in addition `__sanitizer_free_hook` sees EVERY block released by anyone — also those
+ *    released inside libc (the old block of a buffer that getline()/realloc() moved), which no link-time wrapper
+ *    of the library's own calls can see.
+ * The stdio buffer of the key file would legitimately hold the file's bytes when fclose() releases it (documented
+ * as outside the statement): fopen is wrapped and the FILE is given a harness-owned static buffer instead. */
 #include <malloc.h>
 #include <unistd.h>
 #include <openssl/bn.h>
@@ -20,6 +26,16 @@
 
 void * __real_malloc(size_t);
 void __real_free(void *);
+FILE * __real_fopen(const char *, const char *);
+
+#if defined(__SANITIZE_ADDRESS__)
+#define HAVE_FREE_HOOK 1
+size_t __sanitizer_get_allocated_size(const volatile void *);
+void __sanitizer_free_hook(const volatile void *);
+#endif
+
+/* every library malloc fails while this is set (used to make the one-time AES-NI self-test fail) */
+static int fail_mallocs;
 
 /* the block holding the strdup()ed secret (see __wrap_strdup below) */
 static const uint8_t * cur_secret; static size_t cur_secret_len;
@@ -43,9 +59,19 @@ complain(const char * fmt, long a, long b)
 		sprintf(verdict + l, fmt, a, b);
 }
 
-/* ---- secret patterns (8 bytes each) that must not be present in released memory ---- */
-static uint8_t pat[64][8];
+/* ---- secret patterns that must not be present in released memory ---- */
+#define PATMAX 40
+static struct { uint8_t b[PATMAX]; size_t n; } pat[96];
 static int npat;
+static void
+add_pattern_n(const uint8_t * p, size_t n)
+{
+
+	if (npat >= 96 || n == 0 || n > PATMAX) return;
+	memcpy(pat[npat].b, p, n);
+	pat[npat++].n = n;
+}
+/* an 8-byte window of a secret */
 static void
 add_pattern(const uint8_t p[8])
 {
@@ -58,7 +84,7 @@ add_pattern(const uint8_t p[8])
 		if (j == i) distinct++;
 	}
 	if (distinct < 5 || npat >= 64) return;
-	memcpy(pat[npat++], p, 8);
+	add_pattern_n(p, 8);
 }
 static long
 find_pattern(const uint8_t * b, size_t n)
@@ -66,9 +92,9 @@ find_pattern(const uint8_t * b, size_t n)
 	size_t i;
 	int k;
 
-	for (i = 0; i + 8 <= n; i++)
+	for (i = 0; i < n; i++)
 		for (k = 0; k < npat; k++)
-			if (memcmp(b + i, pat[k], 8) == 0)
+			if (i + pat[k].n <= n && b[i] == pat[k].b[0] && memcmp(b + i, pat[k].b, pat[k].n) == 0)
 				return ((long)i);
 	return (-1);
 }
@@ -88,9 +114,12 @@ h_free(void * p)
 void *
 __wrap_malloc(size_t n)
 {
-	void * p = __real_malloc(n);
+	void * p;
 	int i;
 
+	if (fail_mallocs)
+		return (NULL);
+	p = __real_malloc(n);
 	if (p != NULL && watching) {
 		/* an address can be reused after a block was released behind our back: one entry per address */
 		for (i = 0; i < NTRACK; i++)
@@ -121,9 +150,11 @@ __wrap_free(void * p)
 		if (i < NTRACK && !expect_zero) {
 			n = track[i].n;
 			track[i].p = NULL;
+#ifndef HAVE_FREE_HOOK
 			nfrees_checked++;
 			if (find_pattern(p, n) >= 0)
 				complain(" SECRET-IN-FREED-BLOCK@%ld/%ld", find_pattern(p, n), (long)n);
+#endif
 		} else if (i < NTRACK) {
 			/* a block of ours: documented as zeroed over its whole size */
 			n = track[i].n;
@@ -134,14 +165,67 @@ __wrap_free(void * p)
 			if (k < n)
 				complain(" NONZERO@%ld/%ld", (long)k, (long)n);
 		} else {
+#ifndef HAVE_FREE_HOOK
 			/* e.g. a strdup()ed string: must not contain a secret pattern */
 			n = malloc_usable_size(p);
 			nfrees_checked++;
 			if (find_pattern(p, n) >= 0)
 				complain(" SECRET-IN-FREED-BLOCK@%ld/%ld", find_pattern(p, n), (long)n);
+#endif
 		}
 	}
 	__real_free(p);
+}
+
+/* ---- realloc called by library code: always moves, so that the old block is judged like any freed block ---- */
+void * __real_realloc(void *, size_t);
+void *
+__wrap_realloc(void * p, size_t n)
+{
+	void * q;
+	size_t old;
+
+	if (!watching || p == NULL)
+		return (fail_mallocs ? NULL : __real_realloc(p, n));
+	if (n == 0) {
+		__wrap_free(p);
+		return (NULL);
+	}
+	old = malloc_usable_size(p);
+	if ((q = __wrap_malloc(n)) == NULL)
+		return (NULL);
+	memcpy(q, p, old < n ? old : n);
+	__wrap_free(p);
+	return (q);
+}
+
+#ifdef HAVE_FREE_HOOK
+/* ---- every block that anyone (the library, libc on its behalf, OpenSSL) releases while a secret is armed ---- */
+void
+__sanitizer_free_hook(const volatile void * p)
+{
+	size_t n;
+	long at;
+
+	if (p == NULL || !watching || expect_zero || npat == 0)
+		return;
+	n = __sanitizer_get_allocated_size(p);
+	nfrees_checked++;
+	if ((at = find_pattern((const uint8_t *)p, n)) >= 0)
+		complain(" SECRET-IN-FREED-BLOCK@%ld/%ld", at, (long)n);
+}
+#endif
+
+/* ---- the key file's stdio buffer belongs to the harness (see the head of this file) ---- */
+static char stdio_buf[1 << 16];
+FILE *
+__wrap_fopen(const char * path, const char * mode)
+{
+	FILE * f = __real_fopen(path, mode);
+
+	if (f != NULL && watching)
+		setvbuf(f, stdio_buf, _IOFBF, sizeof(stdio_buf));
+	return (f);
 }
 
 /* ---- the block holding the strdup()ed secret: must be zero over the whole secret when freed ---- */
@@ -322,6 +406,29 @@ main(void)
 			}
 			h_free(k);
 			printf(ok ? "ctxzero" : "ctxNONZERO");
+		} else if (hc_is("hooktest", 1)) {
+			/* self-test of the observation: a block holding an armed pattern is released behind the wrappers'
+			 * back (as libc would); the sanitizer build must notice, the plain build cannot */
+			static const uint8_t mark[8] = { 0x5e, 0xc2, 0xe7, 0x11, 0x90, 0x3b, 0xa4, 0x6d };
+			uint8_t * b = __real_malloc(40);
+
+			add_pattern(mark);
+			memcpy(b + 16, mark, 8);
+			watching = 1; expect_zero = 0;
+			__real_free(b);
+			watching = 0;
+			printf("hooktest %s", verdict[0] ? "seen" : "absent");
+		} else if (hc_is("aesmode", 1)) {
+			/* aesmode sw: AES-NI is compiled in (HWACCEL) but must not be selected at run time.  The library
+			 * decides once per process, after a self-test of the accelerated code; the self-test's allocations
+			 * fail here, so the library falls back to OpenSSL's AES for good (the same state a CPU without
+			 * AES-NI leads to).  Must come before any other AES use in the process. */
+			int r;
+
+			fail_mallocs = strcmp(hc_tok[1], "sw") == 0;
+			r = crypto_aes_can_use_intrinsics();
+			fail_mallocs = 0;
+			printf("aesmode %s", r == 0 ? "sw" : "hw");
 		} else if (hc_is("aeskey", 1)) {
 			/* expand + free: the freed block must be all zero */
 			size_t klen; uint8_t * k = hc_unhex(hc_tok[1], &klen);
@@ -384,7 +491,19 @@ main(void)
 			int fd, rc;
 			size_t k;
 
+			/* the secret is recognised by any 8-byte window of it, and (secrets shorter than that included)
+			 * by its beginning in the context the line has in a line buffer: after `..._SECRET=` or, once the
+			 * separator was overwritten, `..._SECRET\0` */
 			for (k = 0; k + 8 <= slen; k++) add_pattern(sec + k);
+			{
+				uint8_t cp[PATMAX];
+				size_t m = slen < 16 ? slen : 16;
+
+				memcpy(cp, "_SECRET=", 8); memcpy(cp + 8, sec, m);
+				add_pattern_n(cp, 8 + m);
+				cp[7] = 0;
+				add_pattern_n(cp, 8 + m);
+			}
 			snprintf(tmpl, sizeof(tmpl), "%s/hwipe-XXXXXX", getenv("HWIPE_TMP") ? getenv("HWIPE_TMP") : "/tmp");
 			fd = mkstemp(tmpl);
 			if (fd < 0 || write(fd, fc, flen) != (ssize_t)flen) { printf("harness-io-error"); HC_END(); continue; }
@@ -393,7 +512,10 @@ main(void)
 			watching = 1; expect_zero = 0;
 			rc = aws_readkeys(tmpl, &id, &ks);
 			watching = 0;
-			cur_secret = NULL;
+			/* on success the copy of the secret now belongs to the caller: forget its address (a later block at
+			 * the same address is not the secret's copy) */
+			cur_secret = NULL; cur_secret_len = 0; secret_block = NULL;
+			memset(stdio_buf, 0, sizeof(stdio_buf));
 			unlink(tmpl);
 			if (rc == 0) {
 				/* success: the caller owns the strings */
